@@ -87,15 +87,44 @@ static char sid[32];
 static int child_tid;
 static int w_bufsize;
 
+static char seen_sid[8][32];
+static int nseen;
+
+/* at an exec: every session file that exists belongs to an image that is gone */
+static void mark_seen_sids(const char *dir)
+{
+	DIR *d = opendir(dir);
+	struct dirent *e;
+	int k;
+	while (d && (e = readdir(d))) {
+		if (strncmp(e->d_name, "sid-", 4))
+			continue;
+		for (k = 0; k < nseen; k++)
+			if (!strncmp(seen_sid[k], e->d_name + 4, 16))
+				break;
+		if (k == nseen && nseen < 8)
+			snprintf(seen_sid[nseen++], 32, "%.16s", e->d_name + 4);
+	}
+	if (d)
+		closedir(d);
+}
+
+/* the session of the image that runs now: the sid-*.map that was not there at the last exec */
 static void find_sid(const char *dir)
 {
 	DIR *d = opendir(dir);
 	struct dirent *e;
+	int k;
 	while (d && (e = readdir(d))) {
-		if (!strncmp(e->d_name, "sid-", 4)) {
-			snprintf(sid, sizeof(sid), "%.16s", e->d_name + 4);
-			break;
-		}
+		if (strncmp(e->d_name, "sid-", 4))
+			continue;
+		for (k = 0; k < nseen; k++)
+			if (!strncmp(seen_sid[k], e->d_name + 4, 16))
+				break;
+		if (k < nseen)
+			continue;
+		snprintf(sid, sizeof(sid), "%.16s", e->d_name + 4);
+		break;
 	}
 	if (d)
 		closedir(d);
@@ -214,7 +243,15 @@ static int mode_kill(int argc, char **argv)
 		if (!WIFSTOPPED(status))
 			continue;
 		sig = WSTOPSIG(status);
-		if (sig == SIGTRAP) { /* exec */
+		if (sig == SIGTRAP) { /* exec (also of a second image later on): new session, new buffers to watch */
+			int k;
+			for (k = 0; k < nwb; k++) {
+				munmap(wb[k].b, w_bufsize);
+				close(wb[k].fd);
+			}
+			nwb = 0;
+			sid[0] = 0;
+			mark_seen_sids(dir);
 			ptrace(PTRACE_CONT, pid, 0, 0);
 			continue;
 		}
@@ -309,15 +346,231 @@ static int mode_kill(int argc, char **argv)
 		fclose(fp);
 	}
 	printf("\n");
-	/* whatever is left of this session in /dev/shm */
-	if (sid[0]) {
+	/* whatever is left of these sessions in /dev/shm */
+	{
+		DIR *d = opendir(dir);
+		struct dirent *e;
+		while (d && (e = readdir(d))) {
+			char pat[128];
+			glob_t g;
+			size_t i;
+			if (strncmp(e->d_name, "sid-", 4))
+				continue;
+			snprintf(pat, sizeof(pat), "/dev/shm/uftrace-%.16s-*", e->d_name + 4);
+			if (glob(pat, 0, NULL, &g) == 0) {
+				for (i = 0; i < g.gl_pathc; i++)
+					unlink(g.gl_pathv[i]);
+				globfree(&g);
+			}
+		}
+		if (d)
+			closedir(d);
+	}
+	return 0;
+}
+
+/* ------------------------------------------------------------------ two producers, one recorder */
+/*
+ * Mode "multi":  c04_rec multi <dir> <bufsize> <producer-exe> <script0> <script1> <action>...
+ *   Two producers (two tasks with their own tid and session, as far as the recorder is concerned the
+ *   same situation as two threads) share <dir>/.channel and the recorder's lists.  Their scripts stop
+ *   themselves ("S") before every hook call; the actions schedule them:
+ *      P<i>      producer i runs to its next stop (one hook call)
+ *      R         the recorder catches up (as in mode kill)
+ *      K<i>:<e>  single-step producer i until the e-th visible store of its next hook call, SIGKILL it
+ *   At the end the remaining producers are SIGKILLed where they stand; then the end-of-recording code runs.
+ *      SHL <i>:<idx>:<flag> ...   shmem_list after the drain (i = producer index)
+ *      WL <i>:<size> ...          queued buffers after flush_shmem_list
+ *      FILE<i> <hex>              <tid_i>.dat
+ */
+struct prodst {
+	pid_t pid;
+	int alive;
+	char sid[32];
+	struct watch wb[MAXBUF];
+	int nwb;
+};
+static struct prodst pr2[2];
+
+static void load_watch(int i)
+{
+	memcpy(wb, pr2[i].wb, sizeof(wb));
+	nwb = pr2[i].nwb;
+	memcpy(sid, pr2[i].sid, sizeof(sid));
+	child_tid = pr2[i].pid;
+}
+static void save_watch(int i)
+{
+	memcpy(pr2[i].wb, wb, sizeof(wb));
+	pr2[i].nwb = nwb;
+}
+
+/* let producer i run until it stops itself again; returns 0 when it is gone */
+static int advance(int i, int cont)
+{
+	int status;
+	if (!pr2[i].alive)
+		return 0;
+	if (cont)
+		ptrace(PTRACE_CONT, pr2[i].pid, 0, 0);
+	for (;;) {
+		if (waitpid(pr2[i].pid, &status, 0) < 0 || WIFEXITED(status) || WIFSIGNALED(status)) {
+			pr2[i].alive = 0;
+			return 0;
+		}
+		if (!WIFSTOPPED(status))
+			continue;
+		if (WSTOPSIG(status) == SIGSTOP)
+			return 1;
+		ptrace(PTRACE_CONT, pr2[i].pid, 0, WSTOPSIG(status) == SIGTRAP ? 0 : WSTOPSIG(status));
+	}
+}
+
+static int prod_index(int tid)
+{
+	return tid == pr2[0].pid ? 0 : tid == pr2[1].pid ? 1 : 9;
+}
+
+static int mode_multi(int argc, char **argv)
+{
+	const char *dir = argv[2];
+	int bufsize = atoi(argv[3]);
+	const char *exe = argv[4];
+	char **actions = &argv[7];
+	int nact = argc - 7, a, i, pfd, status;
+	char *channel = NULL;
+	struct shmem_list *sl;
+	struct buf_list *bl;
+
+	logfp = stderr;
+	outfp = stdout;
+	g_opts.dirname = (char *)dir;
+	g_opts.bufsize = bufsize;
+	g_opts.nr_thread = 1;
+	w_bufsize = bufsize;
+	xasprintf(&channel, "%s/.channel", dir);
+	if (mkfifo(channel, 0600) < 0 && errno != EEXIST)
+		return 2;
+	pfd = open(channel, O_RDONLY | O_NONBLOCK);
+	if (pfd < 0 || pipe(thread_ctl) < 0)
+		return 2;
+	fcntl(thread_ctl[0], F_SETFL, O_NONBLOCK);
+	fcntl(thread_ctl[1], F_SETFL, O_NONBLOCK);
+
+	for (i = 0; i < 2; i++) {
+		DIR *d;
+		struct dirent *e;
+		pid_t pid = fork();
+		if (pid == 0) {
+			char bs[32];
+			snprintf(bs, sizeof(bs), "%d", bufsize);
+			setenv("UFTRACE_DIR", dir, 1);
+			setenv("UFTRACE_BUFFER", bs, 1);
+			setenv("UFTRACE_PATTERN", "simple", 1);
+			personality(ADDR_NO_RANDOMIZE);
+			ptrace(PTRACE_TRACEME, 0, 0, 0);
+			execl(exe, exe, argv[5 + i], NULL);
+			_exit(99);
+		}
+		pr2[i].pid = pid;
+		pr2[i].alive = 1;
+		advance(i, 0); /* to its first stop: libmcount is loaded, its sid-*.map exists */
+		d = opendir(dir);
+		while (d && (e = readdir(d))) {
+			if (!strncmp(e->d_name, "sid-", 4) && (i == 0 || strncmp(e->d_name + 4, pr2[0].sid, 16)))
+				snprintf(pr2[i].sid, sizeof(pr2[i].sid), "%.16s", e->d_name + 4);
+		}
+		if (d)
+			closedir(d);
+	}
+
+	for (a = 0; a < nact; a++) {
+		const char *act = actions[a];
+		if (act[0] == 'P') {
+			advance(act[1] - '0', 1);
+		}
+		else if (act[0] == 'R') {
+			drain_pipe(pfd, dir, bufsize);
+			writer_catch_up();
+		}
+		else if (act[0] == 'K') {
+			int want, seen = 0;
+			long steps = 0;
+			i = act[1] - '0';
+			want = atoi(act + 3);
+			if (!pr2[i].alive)
+				continue;
+			load_watch(i);
+			poll_buffers();
+			while (seen < want && steps < 2000000) {
+				ptrace(PTRACE_SINGLESTEP, pr2[i].pid, 0, 0);
+				if (waitpid(pr2[i].pid, &status, 0) < 0)
+					break;
+				steps++;
+				if (!WIFSTOPPED(status) || WSTOPSIG(status) != SIGTRAP)
+					break;
+				seen += poll_buffers();
+			}
+			save_watch(i);
+			if (steps == 0 || WIFSTOPPED(status)) {
+				kill(pr2[i].pid, SIGKILL);
+				waitpid(pr2[i].pid, &status, 0);
+			}
+			pr2[i].alive = 0;
+		}
+	}
+	for (i = 0; i < 2; i++) {
+		if (pr2[i].alive) {
+			kill(pr2[i].pid, SIGKILL);
+			waitpid(pr2[i].pid, &status, 0);
+			pr2[i].alive = 0;
+		}
+	}
+
+	drain_pipe(pfd, dir, bufsize);
+	printf("SHL");
+	list_for_each_entry(sl, &shmem_list_head, list) {
+		int idx = -1, tid = -1, fd;
+		unsigned hdr[2] = { 0, 0 };
+		char name[160];
+		sscanf(sl->id, "/uftrace-%*[^-]-%d-%d", &tid, &idx);
+		snprintf(name, sizeof(name), "/dev/shm%s", sl->id);
+		fd = open(name, O_RDONLY);
+		if (fd >= 0) {
+			if (read(fd, hdr, sizeof(hdr)) < 0)
+				hdr[1] = 9999;
+			close(fd);
+		}
+		printf(" %d:%d:%u", prod_index(tid), idx, hdr[1]);
+	}
+	printf("\n");
+	flush_shmem_list(dir, bufsize);
+	printf("WL");
+	list_for_each_entry(bl, &buf_write_list, list)
+		printf(" %d:%u", prod_index(bl->tid), ((struct mcount_shmem_buffer *)bl->shmem_buf)->size);
+	printf("\n");
+	record_remaining_buffer(&g_opts, -1);
+	unlink_shmem_list();
+	for (i = 0; i < 2; i++) {
+		char *path = NULL;
+		FILE *fp;
+		int c;
 		char pat[128];
 		glob_t g;
-		size_t i;
-		snprintf(pat, sizeof(pat), "/dev/shm/uftrace-%s-*", sid);
-		if (glob(pat, 0, NULL, &g) == 0) {
-			for (i = 0; i < g.gl_pathc; i++)
-				unlink(g.gl_pathv[i]);
+		size_t k;
+		xasprintf(&path, "%s/%d.dat", dir, (int)pr2[i].pid);
+		printf("FILE%d ", i);
+		fp = fopen(path, "rb");
+		if (fp) {
+			while ((c = fgetc(fp)) != EOF)
+				printf("%02x", c);
+			fclose(fp);
+		}
+		printf("\n");
+		snprintf(pat, sizeof(pat), "/dev/shm/uftrace-%s-*", pr2[i].sid);
+		if (pr2[i].sid[0] && glob(pat, 0, NULL, &g) == 0) {
+			for (k = 0; k < g.gl_pathc; k++)
+				unlink(g.gl_pathv[k]);
 			globfree(&g);
 		}
 	}
@@ -450,6 +703,8 @@ int main(int argc, char **argv)
 {
 	if (argc >= 6 && !strcmp(argv[1], "kill"))
 		return mode_kill(argc, argv);
+	if (argc >= 7 && !strcmp(argv[1], "multi"))
+		return mode_multi(argc, argv);
 	if (argc >= 3 && !strcmp(argv[1], "live"))
 		return mode_live(argv[2]);
 	fprintf(stderr, "usage: c04_rec kill <dir> <bufsize> <producer> <script> <action>... | c04_rec live <dir>\n");
